@@ -214,3 +214,8 @@ def run(ctx):
         if art is not None:
             check_entry_guard(cfg, art, rep)
         check_reasons(cfg, crate, rep)
+        if cfg in ("K1", "K3"):
+            # thisUpdate / nextUpdate / revocationDate / invalidityDate and the update-order guard all go through the
+            # shared time helpers: their rules (instant preserved, truncation, form) are necessary here too
+            import c09
+            common.borrow_rules(rep, lambda: (c09.single(cfg, crate, rep), c09.helper(cfg, crate, rep)), "C09.", "C08.time")
